@@ -42,6 +42,8 @@ def main():
                 print(p.stdout[-800:])
     finally:
         subprocess.check_call(["git", "-C", "/repo", "checkout", "--", "."])
+        # evidence written while a seeded change was applied describes the mutant, not the repository
+        subprocess.call(["git", "-C", VERIF, "checkout", "--", "evidence"])
     print(json.dumps(results))
     return 0
 
